@@ -47,10 +47,14 @@ def configs(tier):
         for weights in (True, False):
             out.append(dict(family='timing-builder', entry='nonMarkov_directed_percolate_network_with_timing', graph=g, weights=weights,
                             tags=['timing-builder', g, 'weights' if weights else 'no-weights']))
+        out.append(dict(family='timing-builder', entry='nonMarkov_directed_percolate_network_with_timing', graph=g, weights=True, fxn_args=True,
+                        tags=['timing-builder', g, 'fxn-args']))
         for e in ('estimate_directed_SIR_prob_size', 'estimate_nonMarkov_SIR_prob_size', 'estimate_nonMarkov_SIR_prob_size_with_timing'):
             if e != 'estimate_nonMarkov_SIR_prob_size' and g == 'K3' and tier == 'quick':
                 continue
             out.append(dict(family='est', entry=e, graph=g, tags=['est', e, g]))
+            if e == 'estimate_nonMarkov_SIR_prob_size_with_timing' and g in ('K2', 'P3'):
+                out.append(dict(family='est', entry=e, graph=g, fxn_args=True, tags=['est', e, g, 'fxn-args']))
     return out
 
 
@@ -217,7 +221,12 @@ def run_path(h, cfg):
         else:
             dur = {u: eng.real('D_%s' % (u,), lo=0) for u in r.G.nodes()}
             dl = {(u, v): eng.real('d_%s_%s' % (u, v), lo=0) for u in r.G.nodes() for v in r.G.neighbors(u)}
-            res = h.call_must_succeed('no-exception', EoN.estimate_nonMarkov_SIR_prob_size_with_timing, r.G, lambda u, v: dl[(u, v)], lambda u: dur[u])
+            tf, rf, extra = (lambda u, v: dl[(u, v)]), (lambda u: dur[u]), {}
+            if cfg.get('fxn_args'):
+                tf = simruns.expecting(tf, 2, simruns.TRANS_ARGS, 'trans_time_fxn')
+                rf = simruns.expecting(rf, 1, simruns.REC_ARGS, 'rec_time_fxn')
+                extra = dict(trans_time_args=simruns.TRANS_ARGS, rec_time_args=simruns.REC_ARGS)
+            res = h.call_must_succeed('no-exception', EoN.estimate_nonMarkov_SIR_prob_size_with_timing, r.G, tf, rf, **extra)
     finally:
         sim.estimate_SIR_prob_size_from_dir_perc = real_from
     if res is None:
